@@ -266,15 +266,7 @@ def sig_duplicate_term(case, res):
     idx = d.get("cmd_index", 0)
     decls = osmt.ref_decls(case, idx)
     earlier = [strip_names(c[1]) for c in case["cmds"][:idx] if c[0] in ("assert", "assert-named")]
-    if len(set(earlier)) < len(earlier):
-        return True
-    if len(earlier) > 24:
-        return False
-    for i in range(len(earlier)):
-        for j in range(i):
-            if z3_equiv(decls, earlier[i], earlier[j], 1000) is True:
-                return True
-    return False
+    return ref.any_equivalent_pair(decls, earlier)
 
 
 def sig_popped_in_full_core(case, res):
